@@ -179,7 +179,7 @@ func (env *emEnv) buf(v ssa.Value) ([]emTerm, error) {
 }
 
 func (env *emEnv) callBuf(call *ssa.Call) ([]emTerm, error) {
-	callee := call.Call.StaticCallee()
+	callee := ir.Callee(call.Call)
 	if callee == nil || callee.Blocks == nil {
 		return nil, emFail("buffer is produced by a call the rule cannot inline: %s", ir.Sym(call))
 	}
@@ -370,7 +370,7 @@ func scratchWriter(a *ssa.Alloc) (string, *ssa.Call) {
 			if uses {
 				n++
 				call = c
-				if sc := c.Call.StaticCallee(); sc != nil {
+				if sc := ir.Callee(c.Call); sc != nil {
 					name = fxFullName(sc)
 				} else if c.Call.IsInvoke() {
 					name = c.Call.Method.FullName()
@@ -505,7 +505,7 @@ func intBits(b *types.Basic) int {
 // callDesc describes result #0 of a call through a function-valued parameter
 // (the element marshaler): M(arg).
 func (env *emEnv) callDesc(c *ssa.Call) (string, error) {
-	if c.Call.IsInvoke() || c.Call.StaticCallee() != nil {
+	if c.Call.IsInvoke() || ir.Callee(c.Call) != nil {
 		return "", emFail("call %s is not the element marshaler", ir.Sym(c))
 	}
 	if _, isSig := c.Call.Value.Type().Underlying().(*types.Signature); !isSig || len(c.Call.Args) != 1 {
